@@ -503,9 +503,41 @@ def run(tier: str, seed: int) -> dict:
         "processes": procs,
     }
     out["seconds_strings"] = out["seconds"]
+    _decoded_text_family(out)
     _merge_trees(out, tier, seed)
     out["seconds"] = round(time.time() - t0, 2)
     return out
+
+
+def _decoded_text_family(out: dict) -> None:
+    """Directed family (added by the maintainer of /verif): what the decoder returns must itself be printable —
+    every SGR sequence of up to 4 parameters over a small alphabet (incl. out-of-range colour indices and
+    components) is decoded and the resulting Text printed on every colour system; nothing may raise."""
+    import itertools
+
+    from rich.ansi import AnsiDecoder
+    from rich.console import Console
+
+    params = ["", "0", "1", "38", "48", "5", "2", "255", "256", "300", "999"]
+    n = bad = 0
+    consoles = [Console(file=io.StringIO(), width=20, force_terminal=True, color_system=cs, legacy_windows=False, _environ={})
+                for cs in (None, "standard", "256", "truecolor", "windows")]
+    for k in range(1, 5):
+        for combo in itertools.product(params, repeat=k):
+            s = "\x1b[" + ";".join(combo) + "mtext\x1b[0m tail"
+            n += 1
+            try:
+                texts = list(AnsiDecoder().decode(s))
+                for con in consoles:
+                    for t in texts:
+                        con.print(t)
+            except Exception as e:  # noqa
+                if bad < 3:
+                    bad += 1
+                    out["failures"].append({"check": "c14.AnsiDecoder.decoded_text_prints", "what": "decoding / printing the decoded Text raised %s" % type(e).__name__,
+                                            "input_key": repr(s), "input": s, "expected": "no exception", "observed": "%s: %s" % (type(e).__name__, e)})
+    out["clauses"]["c14.AnsiDecoder.decoded_text_prints"] = n
+    out["evaluations"] += n
 
 
 def _blank(msg: str) -> str:
